@@ -24,6 +24,10 @@
 //!                              data-type prefix (`C D O H R F`) or character/string property. Tokens: `(`, `)`, runs of
 //!                              blanks, runs of other characters.
 //!   `pt <text>`                literal property-list text (`\n`, `\\`, `\xHH` escapes).
+//!   `e <k> <hex> <text case>`  the text of the inner case without its last k characters, followed
+//!                              by the ending `<hex>` (`\r`, `\r\r`, `\r\n`, `\n\r`, `\`, U+0085, …).
+//!   `el <mode> <n> <file>`     a corpus list with its line endings rewritten (crlf, cr, crcrlf,
+//!                              lfcr, mixed) and cut after n characters.
 //!   `pn <n> <text>`            the text followed by n opening parentheses (nesting depth).
 //!   `ct <text>`                a canonical rendering of a well-formed tree: the real CST and the
 //!                              Lean model must read it without warnings and render it back.
@@ -708,6 +712,43 @@ impl C10 {
                 format!("{}{}", unesc(prefix), "(".repeat(n))
             }
             "pg" => gen_counts_pl(rest),
+            "e" => {
+                // `e <k> <ending hex> <inner text case>`: the inner text without its last k
+                // characters, followed by the ending
+                let mut w = rest.splitn(3, ' ');
+                let k: usize = w.next().unwrap().parse().expect("e k");
+                let ending = String::from_utf8_lossy(&unhex(w.next().unwrap())).into_owned();
+                let inner = w.next().unwrap_or("pt ");
+                let (icmd, irest) = inner.split_once(' ').unwrap_or((inner, ""));
+                let t = self.text_of_case(icmd, irest);
+                let n = t.chars().count();
+                let mut out: String = t.chars().take(n.saturating_sub(k)).collect();
+                out.push_str(&ending);
+                out
+            }
+            "el" => {
+                // `el <mode> <n> <file>`: a corpus list with its line endings rewritten
+                // (crlf | cr | crcrlf | lfcr | mixed), cut after n characters
+                let mut w = rest.splitn(3, ' ');
+                let mode = w.next().unwrap();
+                let n: usize = w.next().unwrap().parse().expect("el n");
+                let src = String::from_utf8_lossy(&self.load(w.next().unwrap())).into_owned();
+                let unix = src.replace("\r\n", "\n").replace('\r', "\n");
+                let mut out = String::new();
+                for (i, line) in unix.split('\n').enumerate() {
+                    if i > 0 {
+                        out.push_str(match mode {
+                            "crlf" => "\r\n",
+                            "cr" => "\r",
+                            "crcrlf" => "\r\r\n",
+                            "lfcr" => "\n\r",
+                            _ => ["\r\n", "\n", "\r", "\r\r\n"][i % 4],
+                        });
+                    }
+                    out.push_str(line);
+                }
+                out.chars().take(n).collect()
+            }
             "p" => {
                 let mut w = rest.split(' ');
                 let src = String::from_utf8_lossy(&self.load(w.next().unwrap())).into_owned();
@@ -1425,7 +1466,7 @@ impl Property for C10 {
          (16-byte, 24-byte, minimal consistent 48-byte, a 72-byte consistent file with junk, a 131 068-byte file with lf=32767: stride 8 there except lf and nw), hc: every word of two consistent tables swept with lf and the file length following (0..64 dense in quick, 0..512 in thorough, sparse to 2^16); then random consistent size tables with random bodies and random 1-3-word damage; \
          t: every corpus .tfm under crates/tfm*/ — all truncation lengths that are multiples of 4 around every sub-file boundary plus random ones, random single-byte and header-word mutations; \
          p: every corpus .plst/.pl — random token mutations (paren deletion/insertion, out-of-range and huge numbers, keyword swaps, undeclared characters in labels, cuts, deep nesting, repeats); \
-         ct: random well-formed trees in canonical one-line rendering (round-trip law of the CST, real and model); nf/nu/nb: the three number readers on ~120 boundary strings (≥ 10-digit integers, the radix limits ±1, R with 7/8/many fraction digits around 2047.9999999/2048, sign runs, bad prefixes, face codes) and random strings over their alphabets; pt: random small property lists from the grammar with deliberate violations; pg: property lists built from counts so that every sub-file count (nw, nh, nd, ni, ne, np, lh, nl, nk, redirect words, bc/ec) sits at and just beyond its format limit, alone, all together, with random combinations, and with lig/kern tables that push lf to and past 2^15 words. Every tftopl output is fed to pltotf and every pltotf output to the reader and tftopl. \
+         ct: random well-formed trees in canonical one-line rendering (round-trip law of the CST, real and model); nf/nu/nb: the three number readers on ~120 boundary strings (≥ 10-digit integers, the radix limits ±1, R with 7/8/many fraction digits around 2047.9999999/2048, sign runs, bad prefixes, face codes) and random strings over their alphabets; pt: random small property lists from the grammar with deliberate violations; e/el: byte-level endings (15 endings incl. CR, CR CR, CR LF, LF CR, backslash, U+0085, U+2028, tab, NUL × the last 0-3 characters cut) on literal texts, every small corpus list and a sample of all generated/mutated texts, and CRLF/CR/CRCRLF/LFCR/mixed line-ending variants of corpus lists cut at every character position of the first 200 (quick) / 700 (thorough); pg: property lists built from counts so that every sub-file count (nw, nh, nd, ni, ne, np, lh, nl, nk, redirect words, bc/ec) sits at and just beyond its format limit, alone, all together, with random combinations, and with lig/kern tables that push lf to and past 2^15 words. Every tftopl output is fed to pltotf and every pltotf output to the reader and tftopl. \
          Non-trivial = a byte case of at least 2 bytes, or a text case containing at least one '('; distinct = distinct case string."
             .into()
     }
@@ -1544,7 +1585,7 @@ impl Property for C10 {
                     start += 64;
                 }
                 // sparse up to and past 2^15
-                v.push(format!("hc 24 {fill} {hexbase} {w} {} {} {}", top, if th { 64 } else { 20 }, if th { 97 } else { 1621 }));
+                v.push(format!("hc 24 {fill} {hexbase} {w} {} {} {}", top, if th { 64 } else { 12 }, if th { 97 } else { 2711 }));
                 for b in [32700usize, 65500] {
                     v.push(format!("hc 24 {fill} {hexbase} {w} {b} {} 1", if th { 36 } else { 8 }));
                 }
@@ -1648,7 +1689,7 @@ impl Property for C10 {
             let n_mut = match (th, big) {
                 (true, false) => 350,
                 (true, true) => 60,
-                (false, false) => 60,
+                (false, false) => 45,
                 (false, true) => 3,
             };
             for _ in 0..n_mut {
@@ -1858,6 +1899,57 @@ impl Property for C10 {
                 v.push(format!("p {rel} {}", mutate_pl(&mut r, ntok)));
             }
         }
+        // ---- e / el: byte-level endings and line-ending variants ---------------------------
+        {
+            let mut r = rng.fork();
+            let endings: &[&str] = &["\r", "\r\r", "\r\n", "\n\r", "\\", "\u{85}", "\u{2028}", "\t", "\u{0}", "(\r", ")\r", " \r", "\r\r\r", "x\r", "\r "];
+            // every ending x every cut on a few literal texts and on every small corpus list
+            let mut inners: Vec<String> = vec![
+                "pt ".into(),
+                "pt (".into(),
+                "pt (CHARACTER C A (CHARWD R 1.0))".into(),
+                "pt (LIGTABLE (LABEL C A)\\n(KRN C B R 1.0)\\n(STOP))\\n".into(),
+                "pt (COMMENT a (b) c)\\n".into(),
+                "pt (CODINGSCHEME X)\\r\\n(FAMILY Y)\\r\\n".into(),
+            ];
+            let pls_e = self.corpus_files(&["plst", "pl"]);
+            for (rel, len) in &pls_e {
+                if *len <= if th { 20_000 } else { 1_200 } {
+                    inners.push(format!("p {rel}"));
+                }
+            }
+            for inner in &inners {
+                for e in endings {
+                    for k in 0..4 {
+                        v.push(format!("e {k} {} {inner}", hex(e.as_bytes())));
+                    }
+                }
+            }
+            // … and a random ending on a sample of the generated text cases so far
+            let texts: Vec<String> = v.iter().filter(|c| c.starts_with("pt ") || c.starts_with("pg ") || c.starts_with("p ")).cloned().collect();
+            let every = if th { 4 } else { 14 };
+            for (j, c) in texts.iter().enumerate() {
+                if j % every == 0 && !(c.starts_with("pg ") && c.len() > 40) {
+                    v.push(format!("e {} {} {c}", r.below(4), hex(r.pick(endings).as_bytes())));
+                }
+            }
+            // line-ending variants of corpus lists cut at every character position
+            let upto = if th { 700 } else { 200 };
+            let mut nfiles = 0;
+            for (rel, len) in &pls_e {
+                let wanted = rel.contains("windows_newlines") || rel.contains("crlf") || (*len > 200 && *len < 20_000 && nfiles < if th { 40 } else { 3 });
+                if !wanted {
+                    continue;
+                }
+                nfiles += 1;
+                for mode in ["crlf", "cr", "crcrlf", "lfcr", "mixed"] {
+                    for n in 0..upto.min(*len + 8) {
+                        v.push(format!("el {mode} {n} {rel}"));
+                    }
+                }
+            }
+        }
+
         v
     }
 
@@ -1955,11 +2047,28 @@ impl Property for C10 {
                 for (a, b) in inner.iter().take(150) {
                     c.push(without(*a, *b));
                 }
+                // single characters (byte-level endings and the like)
+                let chars: Vec<char> = text.chars().collect();
+                if chars.len() <= 120 {
+                    for i in 0..chars.len() {
+                        let mut o = chars.clone();
+                        o.remove(i);
+                        c.push(format!("pt {}", esc(&o.iter().collect::<String>())));
+                    }
+                }
                 // blanks
                 if toks.len() < 200 {
                     for i in 0..toks.len() {
                         c.push(without(i, i + 1));
                     }
+                }
+            }
+            "e" | "el" => {
+                // as literal text (then shrinks as pt); for el also shorter cuts
+                let mut me = C10 { repo: self.repo.clone(), files: Default::default(), header_values: 0, driver: self.driver.clone(), seconds: Default::default() };
+                let text = me.text_of_case(cmd, rest);
+                if text.len() < 30_000 {
+                    c.push(format!("pt {}", esc(&text)));
                 }
             }
             "nf" | "nu" | "nb" => {
@@ -2189,7 +2298,7 @@ impl C10 {
                 let key = match which { "fix" => "DESIGNUNITS", "u32" => "CHECKSUM", _ => "BOUNDARYCHAR" };
                 self.check_text(&format!("({key} {data})"), drv, &mut out, "");
             }
-            "p" | "pt" | "pn" | "pg" => {
+            "p" | "pt" | "pn" | "pg" | "e" | "el" => {
                 let text = self.text_of_case(cmd, rest);
                 out.nontrivial = text.contains('(');
                 out.tag(format!("case:{cmd}"));
@@ -2205,6 +2314,18 @@ impl C10 {
                     for m in rest.split(' ').skip(1) {
                         out.tag(format!("p:mut-{}", &m[..1]));
                     }
+                }
+                if cmd == "e" || cmd == "el" {
+                    let last = text.chars().last();
+                    out.tag(format!("ending:{}", match last {
+                        Some('\r') => "CR",
+                        Some('\n') => "LF",
+                        Some('\\') => "backslash",
+                        Some(c) if c.is_control() => "control",
+                        Some(c) if !c.is_ascii() => "non-ascii",
+                        Some(_) => "other",
+                        None => "empty",
+                    }));
                 }
                 self.check_text(&text, drv, &mut out, "");
             }
